@@ -215,7 +215,7 @@ func (x *tr) isFrameLoop(s ast.Stmt) bool {
 		if fd == nil || fd.Body == nil {
 			return false
 		}
-		l = findLoop(fd.Body, x.t.LoopFrame) // loopbody.go
+		l = findLoop(fd.Body, x.canonLoopIndex(fd, x.t.LoopFrame, false)) // loopbody.go; loopcanon.go
 		frameLoops[x.t.Name] = l
 	}
 	return l.stmt == s
